@@ -89,7 +89,7 @@ pub fn val(r: &mut Rng) -> u128 {
 
 // ------------------------------------------------------------------------------------------------
 #[derive(Debug, Clone)]
-enum Op {
+pub enum Op {
     Push(u64),
     Pop,
     GetMut(usize, Option<u64>),
@@ -115,7 +115,7 @@ fn us(x: u128) -> Option<usize> {
     }
 }
 
-fn decode_ops(inp: &[u128]) -> Option<Vec<Op>> {
+pub fn decode_ops(inp: &[u128]) -> Option<Vec<Op>> {
     let mut pos = 0;
     let mut ops = Vec::new();
     while pos < inp.len() {
@@ -167,7 +167,7 @@ fn decode_ops(inp: &[u128]) -> Option<Vec<Op>> {
     Some(ops)
 }
 
-fn enc_event(e: &VecEvent<u64>, out: &mut Vec<u128>) {
+pub fn enc_event(e: &VecEvent<u64>, out: &mut Vec<u128>) {
     match e {
         VecEvent::Push(v) => out.extend([1, *v as u128]),
         VecEvent::Pop => out.push(2),
@@ -200,7 +200,7 @@ fn enc_events(es: &[VecEvent<u64>], out: &mut Vec<u128>) {
 }
 
 /// Applies one mutator; returns the branch label.  May panic (caught by the caller).
-fn apply(obs: &mut ObservableVec<u64, Codec>, op: &Op) -> &'static str {
+pub fn apply(obs: &mut ObservableVec<u64, Codec>, op: &Op) -> &'static str {
     let len = obs.len();
     match op {
         Op::Push(v) => {
@@ -359,7 +359,7 @@ fn panic_label(op: &Op, done: bool) -> &'static str {
 }
 
 /// Applies an event to a plain vector the way a consumer by hand would (independent of remoc's mirror).
-fn hand_apply(v: &mut Vec<u64>, complete: &mut bool, done: &mut bool, e: &VecEvent<u64>) -> Result<(), u128> {
+pub fn hand_apply(v: &mut Vec<u64>, complete: &mut bool, done: &mut bool, e: &VecEvent<u64>) -> Result<(), u128> {
     match e {
         VecEvent::Push(x) => v.push(*x),
         VecEvent::Pop => {
